@@ -1004,3 +1004,40 @@ package bkl
 //@   preserves-existing
 //@   ensures (and (>= res allocTop) (not (= res 0)))
 //@   ensures (= (EvalContext.Vars res) (VMap (envFold emptyM osEnviron)))                                    [C09] [C13]
+
+// ------------------------------------------------------------------------------------------------- toml.go, yaml.go, json.go (stream framing, C05)
+
+//@ func tomlMarshalStream(vs) (res, err)
+//@   property C05
+//@   ensures (= (isErr err) (seqEncErr codecTOML (ls vs) 0))                                                 [C05]
+//@   ensures (=> (not (isErr err)) (= res (tomlFrame codecTOML (ls vs) 0)))                                  [C05]
+//@   loop 1
+//@     invariant (= first (= idx 0))
+//@     invariant (= (encoded enc) idx)
+//@     invariant (= (str.++ (content buf) (tomlFrame codecTOML rest idx)) (tomlFrame codecTOML (ls vs) 0))
+//@     invariant (= (seqEncErr codecTOML rest idx) (seqEncErr codecTOML (ls vs) 0))
+//
+//@ func jsonMarshalStream(vs) (res, err)
+//@   property C05
+//@   ensures (exists ((c Int)) (and (= (isErr err) (seqEncErr c (ls vs) 0)) (=> (not (isErr err)) (= res (jsonFrame c (ls vs) 0)))))   [C05]
+//@   loop 1
+//@     invariant (= (encoded enc) idx)
+//@     invariant (= (str.++ (content buf) (jsonFrame (codecOf enc) rest idx)) (jsonFrame (codecOf enc) (ls vs) 0))
+//@     invariant (= (seqEncErr (codecOf enc) rest idx) (seqEncErr (codecOf enc) (ls vs) 0))
+//
+//@ func jsonMarshalStreamPretty(vs) (res, err)
+//@   property C05
+//@   ensures (exists ((c Int)) (and (= (isErr err) (seqEncErr c (ls vs) 0)) (=> (not (isErr err)) (= res (jsonFrame c (ls vs) 0)))))   [C05]
+//@   loop 1
+//@     invariant (= (encoded enc) idx)
+//@     invariant (= (str.++ (content buf) (jsonFrame (codecOf enc) rest idx)) (jsonFrame (codecOf enc) (ls vs) 0))
+//@     invariant (= (seqEncErr (codecOf enc) rest idx) (seqEncErr (codecOf enc) (ls vs) 0))
+//
+//@ func yamlMarshalStream(vs) (res, err)
+//@   property C05
+//@   ensures (exists ((c Int)) (and (= (isErr err) (yamlEncErr c (ls vs) 0)) (=> (not (isErr err)) (= res (yamlFrame c (ls vs) 0 0)))))   [C05]
+//@   loop 1
+//@     invariant (= first (= idx 0))
+//@     invariant (>= (encoded enc) 0)
+//@     invariant (= (str.++ (content buf) (yamlFrame (codecOf enc) rest idx (encoded enc))) (yamlFrame (codecOf enc) (ls vs) 0 0))
+//@     invariant (= (yamlEncErr (codecOf enc) rest (encoded enc)) (yamlEncErr (codecOf enc) (ls vs) 0))
